@@ -1,6 +1,7 @@
 import Cuke.Driver.Tag
 import Cuke.Driver.Retry
 import Cuke.Driver.Match
+import Cuke.Driver.Pipe
 /-! `cuke-driver`: one request per line on stdin, one response per line on stdout. -/
 open Cuke Cuke.Wire Cuke.Driver
 
@@ -14,6 +15,7 @@ def dispatch (line : String) : String :=
       | "filter.feature" => handleFilter args
       | "retry.resolve" => handleRetryResolve args
       | "match.find" => handleMatchFind args
+      | "pipe.run" => handlePipeRun args
       | _ => none
     match r with
     | some s => s
